@@ -99,7 +99,7 @@ def run(ctx, res):
     res.rule = ('carts with random/structured region bytes (uniform, 0xff, zero, single-bit, ramp), labels present/absent, '
                 'versions 0..2^31, code over all 256 P8SCII bytes in strings/comments/glyph identifiers, LF/CRLF, every kind of code ending (none, LF, bare CR, CRLF, LFCR, blanks, other line-break-like bytes), with/without '
                 'final newline; each written and read by the implementation and by the Lean model; malformed files for the reader; '
-                'distinct non-trivial = distinct (code, version, label?, region style) with non-empty code or non-zero regions')
+                'write-edit-write histories (library edits between two writes); distinct non-trivial = distinct (code, version, label?, region style) with non-empty code or non-zero regions')
     batch = []
     n = ctx.budget(40, 600)
     for i in range(n):
@@ -124,6 +124,42 @@ def run(ctx, res):
         res.count('code_empty' if not code else 'code_nonempty')
         if i in (1, 5):
             res.sample({'code': repr(code[:60]), 'version': version, 'label': label is not None})
+    # histories: write, edit the cart through the library (C17's operations), write again — the second file must hold the edited
+    # cart (no state from the first write may survive), and a third write must equal the second
+    from props import C17
+    for h in range(ctx.budget(6, 80)):
+        regs = {nm: U.rand_bytes(rng, sz) for nm, sz in U.REGION_SIZES}
+        g = U.make_game(regions=regs, code=b'x=%d\n' % h, version=8)
+        f1 = write_p8(g)
+        ops = []
+        for _ in range(rng.randrange(1, 8)):
+            op = C17.gen_op(rng)
+            try:
+                C17.apply_impl(g, op)
+                ops.append(op)
+            except Exception:
+                pass
+        want = U.regions_of(g)
+        f2 = write_p8(g)
+        res.evaluations += 1
+        res.count('write-edit-write')
+        res.nontrivial.add(('history', h, len(ops)))
+        key = 'C03:history:%d' % h
+        inp = {'regions': {k: hx(v) for k, v in regs.items()}, 'ops': [repr(o)[:200] for o in ops]}
+        try:
+            g2, _ = read_p8(f2)
+            got = U.regions_of(g2)
+        except Exception as e:
+            res.fail(key, 'a cart written after library edits cannot be read back (%r)' % (e,), inp)
+            continue
+        want_n = dict(want)
+        want_n['music'] = bytes(b & 127 if i % 4 == 3 else b for i, b in enumerate(want['music']))
+        got['music'] = bytes(b & 127 if i % 4 == 3 else b for i, b in enumerate(got['music']))
+        bad = [nm for nm in want_n if want_n[nm] != got[nm]]
+        if bad:
+            res.fail(key, 'write, edit, write: the second file does not hold the edited %s (stale data from the first write?)' % bad, inp)
+        elif write_p8(g) != f2:
+            res.fail(key, 'writing the same cart a third time gives a different file', inp)
     # reader on malformed / unusual files: model vs implementation
     good = write_p8(U.make_game(rng=rng, code=b'x=1\n', version=8))
     variants = [
